@@ -925,8 +925,21 @@ class _token_runner:
             yield t
 
 
+def _last_line_of_code(code: Any) -> Optional[int]:
+    "The last source line any instruction of this code (or of the code of a lambda in it) is on"
+    lines = [line for _, _, line in code.co_lines() if line is not None]
+    if hasattr(code, "co_positions"):
+        lines += [end for _, end, _, _ in code.co_positions() if end is not None]
+    for c in code.co_consts:
+        if inspect.iscode(c):
+            nested = _last_line_of_code(c)
+            if nested is not None:
+                lines.append(nested)
+    return max(lines) if len(lines) > 0 else None
+
+
 def _get_lambda_in_stream(
-    t_stream, start_token: tokenize.TokenInfo
+    t_stream, start_token: tokenize.TokenInfo, body_goes_on_till_row: Optional[int] = None
 ) -> Tuple[Optional[ast.Lambda], bool]:
     """Finish of looking for a lambda in a token stream. Return the compiled
     (into an ast) lambda, and whether or not we saw a newline as we were parsing.
@@ -934,6 +947,8 @@ def _get_lambda_in_stream(
     Args:
         t_stream (generator): Tokenizer stream
         start_token (tokenize.TokenInfo): The starting lambda token
+        body_goes_on_till_row (int): The row (of the token stream) the code of the lambda we are
+            after is known to reach: the end of a line before that is not its end.
 
     Returns:
         Tuple[Optional[ast.Lambda], bool]: The compiled into an ast lambda, and whether or
@@ -952,15 +967,22 @@ def _get_lambda_in_stream(
     if colon is not None and colon.string == ":":
         accumulated_tokens.append(colon)
     # ... or the end of the statement (`add_one = lambda x: x + 1`)
-    for t in t_stream.tokens_till(
-        {tokenize.OP: [",", ")"], tokenize.NEWLINE: ["\n", "\r\n", ""]}
-    ):
-        accumulated_tokens.append(t)
-        if t.type == tokenize.NEWLINE or t.string == "\n":
-            saw_new_line = True
-    end = getattr(t_stream, "last_token", None)
-    if end is not None and end.type == tokenize.NEWLINE:
+    while True:
+        for t in t_stream.tokens_till(
+            {tokenize.OP: [",", ")"], tokenize.NEWLINE: ["\n", "\r\n", ""]}
+        ):
+            accumulated_tokens.append(t)
+            if t.type == tokenize.NEWLINE or t.string == "\n":
+                saw_new_line = True
+        end = getattr(t_stream, "last_token", None)
+        if end is None or end.type != tokenize.NEWLINE:
+            break
         saw_new_line = True
+        if body_goes_on_till_row is None or end.start[0] >= body_goes_on_till_row:
+            break
+        # A line ends, but the body goes on: the lambda sits inside brackets that were opened
+        # on an earlier line (the tokenizer, started here, can't know).
+        accumulated_tokens.append(end)
 
     function_source = "(" + tokenize.untokenize(accumulated_tokens).lstrip() + ")"
     a_module = ast.parse(function_source)
@@ -1167,6 +1189,9 @@ def _parse_source_for_lambda(
         saw_new_line = False
         # The line (in the file) the lambda we are after starts on, if python can tell us.
         code_first_line = getattr(getattr(ast_source, "__code__", None), "co_firstlineno", None)
+        code_last_line = (
+            _last_line_of_code(ast_source.__code__) if code_first_line is not None else None
+        )
         lambda_positions: Dict[int, Tuple[int, int]] = {}
         lambda_ends: Dict[int, Tuple[int, int]] = {}
         # The lambdas that are the first argument of the call whose name they are filed under
@@ -1176,7 +1201,11 @@ def _parse_source_for_lambda(
             lambda_starts_at_col = start_token.start[1]
             directly_called = getattr(t_stream, "directly_called", False)
             try:
-                lda, saw_new_line = _get_lambda_in_stream(t_stream, start_token)
+                lda, saw_new_line = _get_lambda_in_stream(
+                    t_stream,
+                    start_token,
+                    None if code_last_line is None else code_last_line - lambda_line,
+                )
             except (SyntaxError, tokenize.TokenError, IndexError):
                 # Some other lambda further along that does not end at a "," or ")" - `g =
                 # lambda x: x` at the end of the line: not an argument of a call.
